@@ -79,9 +79,20 @@ func (g *setGen) genField(field *protogen.Field) {
 	case protoreflect.BytesKind:
 		g.P(fieldRef, " = value.Bytes()")
 	case protoreflect.MessageKind, protoreflect.GroupKind:
-		g.P(fieldRef, " = value.Message().Interface().(*", g.QualifiedGoIdent(field.Message.GoIdent), ")")
+		g.P("cv := value.Message().Interface().(*", g.QualifiedGoIdent(field.Message.GoIdent), ")")
+		g.genRejectReadOnly()
+		g.P(fieldRef, " = cv")
 	}
 
+}
+
+// genRejectReadOnly makes Set refuse the empty, read-only message (a nil pointer) that Get
+// returns for an unpopulated field, as the Set comment promises and as lists and maps already do;
+// storing it would silently clear the field.
+func (g *setGen) genRejectReadOnly() {
+	g.P("if cv == nil {")
+	g.P("panic(", fmtPkg.Ident("Errorf"), "(\"field %s has invalid nil pointer\", fd.FullName()))")
+	g.P("}")
 }
 
 // genDefaultCase generates the default case for field descriptor
@@ -94,6 +105,9 @@ func (g *setGen) genDefaultCase() {
 
 func (g *setGen) genOneof(field *protogen.Field) {
 	g.genOneofValueUnwrapper(field)
+	if field.Message != nil {
+		g.genRejectReadOnly()
+	}
 	g.P("x.", field.Oneof.GoName, " = &", g.QualifiedGoIdent(field.GoIdent), "{", field.GoName, ": cv", "}")
 }
 
